@@ -54,8 +54,46 @@ class FakeCF:
         if (port, cb) in self.port_cbs:
             self.port_cbs.remove((port, cb))
 
+    # The link keeps the packet OBJECT (as RadioDriver's queue and Crazyflie._start_answer_timer do) and reads
+    # header and data only when the simulated radio transmits: `lag` packets behind the sender (0 = at once,
+    # the old behaviour; a large value = at the end of the call), and once more for the resend check.
+    lag = 0
+
     def send_packet(self, pk, expected_reply=(), resend=False, timeout=0.2):
-        self.sent.append((pk.port, pk.channel, list(bytes(pk.data)), list(expected_reply)))
+        entry = {'pk': pk, 'exp': list(expected_reply), 'slot': None, 'tx': None,
+                 'cmd': (pk.port, pk.channel, list(bytes(pk.data)))}
+        if getattr(self, 'on_send', None):
+            self.on_send(entry)
+        if not hasattr(self, 'queue'):
+            self.queue, self.kept = [], []
+        self.queue.append(entry)
+        self.kept.append(entry)
+        while len(self.queue) > self.lag:
+            self._transmit(self.queue.pop(0))
+
+    def _transmit(self, entry):
+        pk = entry['pk']
+        entry['tx'] = (pk.port, pk.channel, list(bytes(pk.data)))
+        p, c, d = entry['tx']
+        e = entry['exp']
+        self.sent.append((p, c, d, e))
+        if entry['slot'] is not None:
+            entry['slot'][:] = [1, p, c, len(d)] + d + [len(e)] + e
+
+    def flush(self):
+        """the radio catches up; then the answer timers fire: every kept object is read once more.
+        Returns the packets whose resend differs from what was commanded at send_packet time."""
+        for entry in getattr(self, 'queue', []):
+            self._transmit(entry)
+        self.queue = []
+        bad = []
+        for entry in getattr(self, 'kept', []):
+            pk = entry['pk']
+            now = (pk.port, pk.channel, list(bytes(pk.data)))
+            if now != entry['cmd'] or entry['tx'] != entry['cmd']:
+                bad.append({'commanded': entry['cmd'], 'transmitted': entry['tx'], 'resent': now})
+        self.kept = []
+        return bad
 
 
 def exn_code(e):
@@ -242,22 +280,21 @@ class Impl:
         prev = logging.root.manager.disable
         logging.disable(logging.CRITICAL)
         try:
-            # observations are interleaved: record wires into self.obs in order
+            # observations are interleaved: a wire takes its place among the callbacks when send_packet is
+            # called, its content is what the radio reads when it transmits
             cf = self.cf
-            sent = cf.sent
 
-            class _L(list):
-                def append(s2, item):
-                    list.append(s2, item)
-                    p, c, d, e = item
-                    self.obs.append([1, p, c, len(d)] + d + [len(e)] + e)
-            cf.sent = _L()
+            def on_send(entry):
+                entry['slot'] = []
+                self.obs.append(entry['slot'])
+            cf.on_send = on_send
             try:
                 self.do(ev)
             except Exception as e:  # noqa
                 code = exn_code(e)
+            self.resend_diff = cf.flush()
+            cf.on_send = None
             wires = list(cf.sent)
-            cf.sent = sent
         finally:
             logging.disable(prev)
         flat = [len(self.obs)]
